@@ -1,0 +1,174 @@
+//go:build verif
+
+package proxy
+
+// Verification hooks for property C19 (backend handshake address). Add-only, no behaviour
+// change: they build the minimal handshakeSessionHandler / connectedPlayer / serverConnection
+// over a recording MinecraftConn and call the real handleHandshake, startHandshake and
+// handshakeAddr.
+
+import (
+	"context"
+	"net"
+
+	"github.com/go-logr/logr"
+	"github.com/robinbraemer/event"
+
+	"go.minekube.com/gate/pkg/edition/java/config"
+	"go.minekube.com/gate/pkg/edition/java/netmc"
+	"go.minekube.com/gate/pkg/edition/java/profile"
+	"go.minekube.com/gate/pkg/edition/java/proto/packet"
+	"go.minekube.com/gate/pkg/edition/java/proto/state"
+	"go.minekube.com/gate/pkg/edition/java/proxy/crypto"
+	"go.minekube.com/gate/pkg/edition/java/proxy/phase"
+	"go.minekube.com/gate/pkg/gate/proto"
+)
+
+// VerifC19Conn is a recording netmc.MinecraftConn: it performs no I/O and remembers what the
+// code under observation did to it.
+type VerifC19Conn struct {
+	Remote, Local net.Addr
+	Proto         proto.Protocol
+	ConnType      phase.ConnectionType
+	Packets       []proto.Packet // BufferPacket + WritePacket, in order
+	Handler       netmc.SessionHandler
+	HandlerState  *state.Registry
+	CloseCount    int
+	ctx           context.Context
+	cancel        context.CancelFunc
+}
+
+// NewVerifC19Conn returns a recording connection.
+func NewVerifC19Conn(remote, local net.Addr, protocol proto.Protocol, connType phase.ConnectionType) *VerifC19Conn {
+	ctx, cancel := context.WithCancel(context.Background())
+	return &VerifC19Conn{Remote: remote, Local: local, Proto: protocol, ConnType: connType, ctx: ctx, cancel: cancel}
+}
+
+func (c *VerifC19Conn) Context() context.Context { return c.ctx }
+func (c *VerifC19Conn) Close() error             { c.CloseCount++; c.cancel(); return nil }
+func (c *VerifC19Conn) State() *state.Registry {
+	if c.HandlerState != nil {
+		return c.HandlerState
+	}
+	return state.Handshake
+}
+func (c *VerifC19Conn) Protocol() proto.Protocol { return c.Proto }
+func (c *VerifC19Conn) RemoteAddr() net.Addr     { return c.Remote }
+func (c *VerifC19Conn) LocalAddr() net.Addr      { return c.Local }
+func (c *VerifC19Conn) Type() phase.ConnectionType {
+	if c.ConnType == nil {
+		return phase.Undetermined
+	}
+	return c.ConnType
+}
+func (c *VerifC19Conn) SetType(t phase.ConnectionType)             { c.ConnType = t }
+func (c *VerifC19Conn) ActiveSessionHandler() netmc.SessionHandler { return c.Handler }
+func (c *VerifC19Conn) SetActiveSessionHandler(s *state.Registry, h netmc.SessionHandler) {
+	c.HandlerState, c.Handler = s, h
+}
+func (c *VerifC19Conn) SwitchSessionHandler(s *state.Registry) bool             { c.HandlerState = s; return true }
+func (c *VerifC19Conn) AddSessionHandler(*state.Registry, netmc.SessionHandler) {}
+func (c *VerifC19Conn) SetAutoReading(bool)                                     {}
+func (c *VerifC19Conn) SetOutboundState(*state.Registry)                        {}
+func (c *VerifC19Conn) SetProtocol(p proto.Protocol)                            { c.Proto = p }
+func (c *VerifC19Conn) SetState(s *state.Registry)                              { c.HandlerState = s }
+func (c *VerifC19Conn) SetCompressionThreshold(int) error                       { return nil }
+func (c *VerifC19Conn) EnableEncryption([]byte) error                           { return nil }
+func (c *VerifC19Conn) WritePacket(p proto.Packet) error {
+	c.Packets = append(c.Packets, p)
+	return nil
+}
+func (c *VerifC19Conn) Write([]byte) error { return nil }
+func (c *VerifC19Conn) BufferPacket(p proto.Packet) error {
+	c.Packets = append(c.Packets, p)
+	return nil
+}
+func (c *VerifC19Conn) BufferPayload([]byte) error { return nil }
+func (c *VerifC19Conn) Flush() error               { return nil }
+func (c *VerifC19Conn) Reader() netmc.Reader       { return nil }
+func (c *VerifC19Conn) Writer() netmc.Writer       { return nil }
+func (c *VerifC19Conn) EnablePlayPacketQueue()     {}
+
+var _ netmc.MinecraftConn = (*VerifC19Conn)(nil)
+
+// VerifC19Spec describes the minimal player / target server a hook builds.
+type VerifC19Spec struct {
+	Config           *config.Config // Forwarding.Mode, BungeeGuardSecret, VelocitySecret
+	Remote           net.Addr       // the player's remote address
+	Protocol         proto.Protocol
+	ConnType         phase.ConnectionType
+	VirtualHost      net.Addr
+	Profile          *profile.GameProfile
+	Key              crypto.IdentifiedKey // nil-able
+	Server           ServerInfo           // may implement HandshakeAddresser
+	BackendAddresser BackendHandshakeAddresser
+}
+
+// verifC19BuildServerConn builds player + serverConnection the way connect() would see them,
+// with backend as the (recording) backend connection.
+func verifC19BuildServerConn(s VerifC19Spec, backend netmc.MinecraftConn) *serverConnection {
+	p := &Proxy{cfg: s.Config}
+	if s.BackendAddresser != nil {
+		p.SetBackendHandshakeAddresser(s.BackendAddresser)
+	}
+	deps := &sessionHandlerDeps{proxy: p, configProvider: p, eventMgr: event.Nop}
+	player := &connectedPlayer{
+		MinecraftConn:      NewVerifC19Conn(s.Remote, &net.TCPAddr{IP: net.IPv4(127, 0, 0, 1), Port: 25565}, s.Protocol, s.ConnType),
+		sessionHandlerDeps: deps,
+		log:                logr.Discard(),
+		profile:            s.Profile,
+		virtualHost:        s.VirtualHost,
+		playerKey:          s.Key,
+	}
+	return &serverConnection{
+		server:     newRegisteredServer(s.Server),
+		player:     player,
+		log:        logr.Discard(),
+		connection: backend,
+	}
+}
+
+// VerifC19ClientHandshake feeds a client Handshake (next state login) to the real
+// handshakeSessionHandler and reports what it derived: the connection type set on the client
+// connection and the virtual host stored for the login (nil if the handshake was refused).
+func VerifC19ClientHandshake(cfg *config.Config, hs *packet.Handshake, network string) (connType phase.ConnectionType, virtualHost net.Addr, refused bool) {
+	p := &Proxy{cfg: cfg}
+	deps := &sessionHandlerDeps{proxy: p, configProvider: p, eventMgr: event.Nop}
+	conn := NewVerifC19Conn(&net.TCPAddr{IP: net.IPv4(192, 0, 2, 1), Port: 50000}, &verifC19NetAddr{network: network, s: "0.0.0.0:25565"}, 0, nil)
+	h := newHandshakeSessionHandler(conn, deps).(*handshakeSessionHandler)
+	h.handleHandshake(hs, &proto.PacketContext{Packet: hs, Direction: proto.ServerBound})
+	lh, ok := conn.Handler.(*initialLoginSessionHandler)
+	if !ok || lh == nil || conn.CloseCount > 0 {
+		return conn.ConnType, nil, true
+	}
+	return conn.ConnType, lh.inbound.VirtualHost(), false
+}
+
+type verifC19NetAddr struct{ network, s string }
+
+func (a *verifC19NetAddr) Network() string { return a.network }
+func (a *verifC19NetAddr) String() string  { return a.s }
+
+// VerifC19StartHandshake runs the real serverConnection.startHandshake against a recording
+// backend connection and returns the Handshake packet buffered for the backend.
+func VerifC19StartHandshake(s VerifC19Spec) (*packet.Handshake, error) {
+	backend := NewVerifC19Conn(s.Server.Addr(), &net.TCPAddr{}, 0, nil)
+	sc := verifC19BuildServerConn(s, backend)
+	resultChan := make(chan *connResponse, 1)
+	resultChan <- &connResponse{connectionResult: &connectionResult{}}
+	if _, err := sc.startHandshake(func() {}, resultChan); err != nil {
+		return nil, err
+	}
+	for _, p := range backend.Packets {
+		if hs, ok := p.(*packet.Handshake); ok {
+			return hs, nil
+		}
+	}
+	return nil, nil
+}
+
+// VerifC19HandshakeAddr calls the real serverConnection.handshakeAddr.
+func VerifC19HandshakeAddr(s VerifC19Spec, vHost string) (string, error) {
+	sc := verifC19BuildServerConn(s, nil)
+	return sc.handshakeAddr(vHost, sc.player)
+}
